@@ -29,6 +29,7 @@ type Cfg struct {
 	Comp    string `json:"comp"`
 	Schemes string `json:"schemes"`
 	Flavour string `json:"flavour"`
+	Esel    string `json:"esel,omitempty"`
 }
 
 // Case is one maximal behaviour printed by TLC.
